@@ -40,7 +40,7 @@ def run(chk):
         broken.append("proof obligations of Props/C02.v do not check: " + plog[-800:])
     g = evalgen.Gen(chk.rng)
     # ---- correspondence on generated updates
-    n = 15000 if thorough else 1200
+    n = 15000 if thorough else 2400
     cases = []
     for _ in range(n):
         d = evalgen.gen_doc(chk.rng)
@@ -61,7 +61,7 @@ def run(chk):
                   sample={"expr": evalgen.render(e), "doc": d, "after": impl[i].decode("utf-8", "replace")} if 30 < len(evalgen.render(e)) < 90 else None)
     # ---- the laws, executed on the implementation
     laws = []
-    nl = 4000 if thorough else 500
+    nl = 4000 if thorough else 1000
     for _ in range(nl):
         d = evalgen.gen_doc(chk.rng)
         g.set_doc(d)
